@@ -60,6 +60,11 @@ def budget_kernel(chk, prog):
         ob.verify(ex, 'at-most-max-messages', mm >= len(res), d_)
         ob.verify(ex, 'within-byte-budget-or-single-oversize', Or(total <= mb, And(Not(strict), len(res) == 1)), d_)
         ob.verify(ex, 'strict-mode-never-exceeds-budget', Implies(strict, total <= mb), d_)
+        # no stall inside one fetch: a candidate is left behind only if it no longer fits next to what was taken (the message limit
+        # is not binding here: max_messages >= candidates)
+        for i in range(n):
+            taken = Or(*[ex.eq(ex.getf(d, 'ID'), db.t['Delivery'][i].v['id']) for d in res]) if res else False
+            ob.verify(ex, 'no-fitting-candidate-left-behind[%d]' % i, Or(taken, total + db.t['Message'][i].v['payload'].len > mb), d_)
         if n > 0:
             first = db.t['Message'][0].v['payload'].len
             ob.verify(ex, 'non-strict-always-delivers-something', Implies(Not(strict), len(res) >= 1), d_)
@@ -85,7 +90,7 @@ class Stop(PathAbort):
 def sender_step(chk, prog):
     """one iteration of the real sender closure from an arbitrary state of its captured variables satisfying the bound"""
     NP, NC = 2, 2
-    fn = MS + 'Go$5'
+    fn = find_closure(prog, MS + 'Go', ['NewGetSubscriptionMessages'])
 
     def harness(ex, ob):
         npend = ex.choose(NP + 1)
@@ -163,7 +168,7 @@ def sender_step(chk, prog):
             for pid, _ in pend.ents:
                 ex.assume(db.t['Delivery'][i].v['id'] != pid)
         try:
-            ex.call_value(Closure(fn, [ex.new_ptr(ms), ctx, ex.new_ptr(ex.zero('sync.Mutex')), fc, ex.new_ptr(pend), wake, ex.new_ptr(conn)]), [])
+            ex.call_value(bind_closure(ex, fn, ms=ex.new_ptr(ms), ctx=ctx, mu=ex.new_ptr(ex.zero('sync.Mutex')), fc=fc, pending=ex.new_ptr(pend), wakeSend=wake, conn=ex.new_ptr(conn)), [])
         except Stop as e:
             pass
         except GoPanic as p:
@@ -190,7 +195,7 @@ def sender_step(chk, prog):
 
 def reader_wakes(chk, prog):
     """the reader closure removes acked/nacked ids from the pending set and wakes the sender before it reads again"""
-    fn = MS + 'Go$4'
+    fn = find_closure(prog, MS + 'Go', ['doAcksNacks'])
 
     def harness(ex, ob):
         db = reldb.sym_db(ex, prog, {'Topic': 1, 'Subscription': 1, 'Message': 1, 'Delivery': 2}, exists=True)
@@ -225,7 +230,7 @@ def reader_wakes(chk, prog):
         ex.xp.select = select
         fc = ex.new_ptr(ex.new_struct(A + 'FlowControl', MaxMessages=1, MaxBytes=1))
         try:
-            ex.call_value(Closure(fn, [ex.new_ptr(ctxv), ex.new_ptr(tryWake), ex.new_ptr(Iface('model.conn', Conn('conn'))), ex.new_ptr(ex.zero('sync.Mutex')), fc, ex.new_ptr(ms), ex.new_ptr(pend)]), [])
+            ex.call_value(bind_closure(ex, fn, ctx=ex.new_ptr(ctxv), tryWake=ex.new_ptr(tryWake), conn=ex.new_ptr(Iface('model.conn', Conn('conn'))), mu=ex.new_ptr(ex.zero('sync.Mutex')), fc=fc, ms=ex.new_ptr(ms), pending=ex.new_ptr(pend)), [])
         except Stop:
             pass
         ob.verify(ex, 'acked-or-nacked-id-leaves-the-pending-set', not any(ex.eq(pid, ids[0]) is True for pid, _ in pend.ents))
@@ -234,10 +239,78 @@ def reader_wakes(chk, prog):
     chk.run('reader:frees-capacity-and-wakes', prog, harness, bounds={'pending': 2, 'request': 'one ack or one nack'}, setup=world.setup, max_paths=50000)
 
 
+def reader_applies_every_ack(chk, prog):
+    """a streaming ack / nack is applied to the database whether or not this stream handed the message out (C03: a streaming ack that
+    succeeded is final; the ack may arrive on another stream than the delivery did)"""
+    fn = find_closure(prog, MS + 'Go', ['doAcksNacks'])
+
+    def harness(ex, ob):
+        db = reldb.sym_db(ex, prog, {'Topic': 1, 'Subscription': 1, 'Message': 1, 'Delivery': 2}, exists=True)
+        client = reldb.make_client(ex, db)
+        rows = db.t['Delivery']
+        for r in rows:
+            ex.assume(And(r.isnull('completed_at'), ex.eq(r.v['subscription_id'], db.t['Subscription'][0].v['id'])))
+        ids = [r.v['id'] for r in rows]
+        pend = MapObj()
+        npend = ex.choose(3)          # none, the first, or both of the ids were sent on this stream
+        for pid in ids[:npend]:
+            pend.ents.append([pid, ex.new_ptr(ex.new_struct(A + 'pendingMessage', bytes=1, nextAttemptAt=0))])
+        acked = ex.choose(2) == 1
+        calls = {'n': 0}
+
+        class Conn(Opaque):
+            def go_invoke(self, ex_, method, args):
+                if method == 'Receive':
+                    calls['n'] += 1
+                    if calls['n'] == 1:
+                        r = ex_.new_struct(A + 'MessageStreamRequest', Ack=ex_.mkslice(list(ids)) if acked else Slice(None, 0, 0, 0),
+                                           Nack=Slice(None, 0, 0, 0) if acked else ex_.mkslice(list(ids)))
+                        return (ex_.new_ptr(r), None)
+                    raise Stop('second receive')
+                raise Unsupported('conn.' + method)
+        ms = ex.new_ptr(ex.new_struct(A + 'MessageStreamer', Client=client, SubscriptionID=ex.new_ptr(db.t['Subscription'][0].v['id']), Logger=Opaque('logger')))
+        tryWake = PyFunc(lambda ex_, a: None, 'tryWake')
+        ctxv = new_context(ex)
+
+        def select(ex_, states, blocking, t):
+            zero = tuple([ex_.zero(x) for x in ex_.prog.types[t]['elems'][2:]])
+            if not blocking:
+                return (-1, False) + zero
+            raise Unsupported('blocking select in reader')
+        ex.xp.select = select
+        fc = ex.new_ptr(ex.new_struct(A + 'FlowControl', MaxMessages=1, MaxBytes=1))
+        pre = db.snapshot()
+        k0 = len(stdlib.clock(ex)['nows'])
+        err = None
+        try:
+            err = ex.call_value(bind_closure(ex, fn, ctx=ex.new_ptr(ctxv), tryWake=ex.new_ptr(tryWake), conn=ex.new_ptr(Iface('model.conn', Conn('conn'))), mu=ex.new_ptr(ex.zero('sync.Mutex')), fc=fc, ms=ex.new_ptr(ms), pending=ex.new_ptr(pend)), [])
+        except Stop:
+            pass
+        if err is not None:
+            raise PathAbort('reader failed')
+        nows = stdlib.clock(ex)['nows'][k0:]
+        d = lambda m: {'sent on this stream': npend, 'request': 'ack' if acked else 'nack'}
+        for i, r0 in enumerate(pre['Delivery']):
+            q = db.t['Delivery'][i]
+            if acked:
+                ob.verify(ex, 'stream-ack-is-recorded[%s]' % ('sent here' if i < npend else 'sent elsewhere'), Not(q.isnull('completed_at')), d)
+            else:
+                # a nack of a live delivery whose redelivery deadline has passed is rescheduled from the time of the call
+                # (or the delivery is dead-lettered, i.e. completed)
+                lbl = 'stream-nack-is-applied[%s]' % ('sent here' if i < npend else 'sent elsewhere')
+                if not nows:        # the nack action reads the clock first: no reading = it never ran
+                    ob.verify(ex, lbl, False, d)
+                    continue
+                live_overdue = And(r0.v['attempt_at'] < nows[0], r0.v['expires_at'] > nows[-1])
+                ob.verify(ex, lbl, Implies(live_overdue, Or(Not(q.isnull('completed_at')), q.v['attempt_at'] >= nows[0])), d)
+    chk.run('reader:every-stream-ack-and-nack-reaches-the-database', prog, harness,
+            bounds={'deliveries': 2, 'sent on this stream': '0..2 of them', 'request': 'acks or nacks for both'}, setup=world.setup, max_paths=50000)
+
+
 def refresher_rearms(chk, prog):
     """the goroutine that re-syncs the pending set after external acks re-arms its (single-use) notifier BEFORE it reads the
     database, so an ack committing during that read is not lost (register-before-query, as for the puller in C10)"""
-    fn = MS + 'Go$6'
+    fn = find_closure(prog, MS + 'Go', ['PublishAwaiter', 'DeliveryClient).Query'])
 
     def harness(ex, ob):
         db = reldb.sym_db(ex, prog, {'Topic': 1, 'Subscription': 1, 'Message': 1, 'Delivery': 1}, exists=True)
@@ -279,7 +352,7 @@ def refresher_rearms(chk, prog):
         ex.intrinsics[A + 'PublishAwaiter'] = reg
         ex.intrinsics[A + 'CancelPublishAwaiter'] = cancel
         try:
-            ex.call_value(Closure(fn, [ex.new_ptr(ms), ex.new_ptr(ctxv), ex.new_ptr(ex.zero('sync.Mutex')), ex.new_ptr(pend), ex.new_ptr(tryWake)]), [])
+            ex.call_value(bind_closure(ex, fn, ms=ex.new_ptr(ms), ctx=ex.new_ptr(ctxv), mu=ex.new_ptr(ex.zero('sync.Mutex')), pending=ex.new_ptr(pend), tryWake=ex.new_ptr(tryWake)), [])
         except Stop:
             pass
         ev = ex.events
@@ -316,6 +389,7 @@ if __name__ == '__main__':
     budget_kernel(chk, prog)
     sender_step(chk, prog)
     reader_wakes(chk, prog)
+    reader_applies_every_ack(chk, prog)
     refresher_rearms(chk, prog)
     chk.assumptions += ['the no-stall half is decided only as wake edges (reader frees capacity and wakes; external acks wake through C10); interleavings inside Go are not enumerated']
     chk.finish()
